@@ -130,31 +130,40 @@ def run(facts, res):
         if cd is not None:
             ok_none = ok_some = False
             du = du_of(cd)
+            from ..conds import _decode_bool, _strip_var
+            # sites that answer None / Some: aggregates, and `cond.then(|| v)` / `cond.then_some(v)` (None iff !cond)
+            opt_sites = []
             for ob, st in assigns_of_return(cd, "Ok"):
-                t = du.rvalue_term(st.rv, 10)
+                t = du.rvalue_term(st.rv, 14)
                 inner = peel(t[3][0]) if t[3] else ("cut",)
-                for l in lits_of(cd, ob, facts):
+                base = list(lits_of(cd, ob, facts))
+                if inner[0] == "agg" and inner[2] in ("None", "Some"):
+                    opt_sites.append((ob, inner[2], base))
+                elif inner[0] == "call" and callee_name(inner) in ("then", "then_some") and inner[2]:
+                    cond = inner[2][0]
+                    opt_sites.append((ob, "Some", base + [_decode_bool(_strip_var(cond), True, ob, cond)]))
+                    opt_sites.append((ob, "None", base + [_decode_bool(_strip_var(cond), False, ob, cond)]))
+            for ob, variant, ls in opt_sites:
+                for l in ls:
                     if l.kind == "call" and callee_name(l.term) == "is_empty" and contains_call(l.term[2][0], "make_diff_patch"):
-                        if inner[0] == "agg" and inner[2] == "None" and l.truth is True:
+                        if variant == "None" and l.truth is True:
                             ok_none = True
-                        if inner[0] == "agg" and inner[2] == "Some" and l.truth is False:
+                        if variant == "Some" and l.truth is False:
                             ok_some = True
             # `unchanged` (None) presupposes a live winner: the order at a deleted descriptor is the empty array, so an
             # empty script against it would leave the array deleted although it was just submitted (as `[]`)
-            def live_winner(body, block):
+            def live_lits(ls):
                 return any(l.kind == "call" and callee_name(l.term) == "is_deleted" and l.truth is False and l.term[2] and
-                           contains_call(l.term[2][0], "get_winner") for l in lits_of(body, block, facts))
-            none_sites = []
-            for ob, st in assigns_of_return(cd, "Ok"):
-                t = du.rvalue_term(st.rv, 10)
-                inner = peel(t[3][0]) if t[3] else ("cut",)
-                if inner[0] == "agg" and inner[2] == "None":
-                    none_sites.append(ob)
+                           contains_call(l.term[2][0], "get_winner") for l in ls)
+
+            def live_winner(body, block):
+                return live_lits(lits_of(body, block, facts))
+            none_sites = [(ob, ls) for ob, variant, ls in opt_sites if variant == "None"]
             callers_ok = True
             cs_ = [s_ for s_ in cg_of(facts).callers_of(cd.path) if s_.body.path != cd.path]
             for s_ in cs_:
                 callers_ok = callers_ok and live_winner(s_.body, s_.block)
-            live_ok = bool(none_sites) and (all(live_winner(cd, ob) for ob in none_sites) or (bool(cs_) and callers_ok))
+            live_ok = bool(none_sites) and (all(live_lits(ls) for ob, ls in none_sites) or (bool(cs_) and callers_ok))
             res.instance("U2", cd.name + ": `unchanged` (None) only for a winner that is not a deletion: %s" % live_ok, cd.loc())
             if not live_ok:
                 res.violation("U2", "diff-maker|unchanged-although-winner-deleted",
